@@ -339,3 +339,125 @@ class main_loop_v1(_MainLoop):
     fn = app1.NDNApp.main_loop
     cls = app1.NDNApp
     doc = 'legacy main_loop: same ordering contract (plus a fresh registration semaphore)'
+
+
+# ----------------------------------------------------------------------------- route decorators
+class RouteList:
+    def __init__(self):
+        self.items = []
+
+    def getattr_(self, it, name, node):
+        if name == 'append':
+            return _M(lambda it_, v: self.items.append(v))
+        raise Unsupported(f'list.{name} on the remembered routes')
+
+
+class FaceR:
+    def __init__(self, run):
+        self.running = run.input_bool('face.running')
+
+    def getattr_(self, it, name, node):
+        if name == 'running':
+            return self.running
+        raise Unsupported(f'face.{name}')
+
+
+def _attach_summary():
+    class _C(Contract):
+        fn = appv2.NDNApp.attach_handler
+        assumed = True
+        raises = {ValueError: lambda cx, **p: True}
+
+        def use_contract_at(c, it, args, kwargs):
+            return 'rt' in it.run.ghost
+
+        def result(c, cx, **p):
+            cx.run.ghost['rt']['attached'].append(p)
+            return None
+    return contract(_C)
+
+
+_attach_summary()
+
+
+def _register_rt(fn_):
+    class _C(Contract):
+        fn = fn_
+        assumed = True
+
+        def use_contract_at(c, it, args, kwargs):
+            return 'rt' in it.run.ghost
+
+        def apply_at(c, cx, p, node, site):
+            cx.run.ghost['rt']['registered'].append(p)
+            return cx.run.fresh_bool('registered_ok')
+    _C.__name__ = 'register_rt_' + fn_.__module__.replace('.', '_')
+    return contract(_C)
+
+
+_register_rt(appv2.NDNApp.register)
+_register_rt(app1.NDNApp.register)
+
+
+class _RouteBase(Contract):
+    nested = 'decorator'
+    props = ('C04', 'C17')
+    cls = None
+
+    def setup(self, cx):
+        run = cx.run
+        routes = RouteList()
+        face = FaceR(run)
+        g = dict(attached=[], registered=[], routes=routes, face=face, name=Opaque('token', 'normalised prefix'),
+                 validator=Opaque('validator', 'validator'))
+        run.ghost['rt'] = g
+        g['self'] = SymObj(self.cls, dict(_autoreg_routes=routes, face=face, logger=logging.getLogger('ndn')))
+        return dict(func=Opaque('route_fn', 'handler'))
+
+
+@contract
+class route_decorator_v2(_RouteBase):
+    fn = appv2.NDNApp.route
+    cls = appv2.NDNApp
+    doc = ('appv2 route(...)(func): the prefix is remembered for re-registration, func is attached to exactly this prefix with the given '
+           'validator (a duplicate attach is refused with ValueError), a registration is started at once iff the face is running, '
+           'and func itself is returned')
+    raises = {ValueError: lambda cx, **p: True}
+
+    def closure(self, cx):
+        g = cx.run.ghost['rt']
+        return dict(self=g['self'], name=g['name'], validator=g['validator'])
+
+    def post(c, cx, result, func):
+        g = cx.run.ghost['rt']
+        tasks = cx.run.ghost.get('tasks', [])
+        return {'prefix_remembered_once': g['routes'].items == [g['name']],
+                'handler_attached_at_this_prefix_with_the_validator': len(g['attached']) == 1 and g['attached'][0]['name'] is g['name'] and
+                g['attached'][0]['handler'] is func and g['attached'][0]['validator'] is g['validator'],
+                'registered_at_once_iff_connected': And(Iff(g['face'].running, len(g['registered']) == 1), len(g['registered']) <= 1,
+                                                        all(r['name'] is g['name'] for r in g['registered'])),
+                'returns_the_function_itself': result is func}
+
+
+@contract
+class route_decorator_v1(_RouteBase):
+    fn = app1.NDNApp.route
+    cls = app1.NDNApp
+    doc = ('legacy route(...)(func): prefix, handler, validator and flags are remembered for (re-)registration; a registration carrying '
+           'exactly these is started at once iff the face is running; func itself is returned')
+    raises = {}
+
+    def closure(self, cx):
+        g = cx.run.ghost['rt']
+        g['flags'] = (Opaque('flag', 'raw'), Opaque('flag', 'sig'))
+        return dict(self=g['self'], name=g['name'], validator=g['validator'], need_raw_packet=g['flags'][0], need_sig_ptrs=g['flags'][1])
+
+    def post(c, cx, result, func):
+        g = cx.run.ghost['rt']
+        want = (g['name'], func, g['validator'], g['flags'][0], g['flags'][1])
+        ok_reg = all(r['name'] is g['name'] and r['func'] is func and r['validator'] is g['validator'] and
+                     r['need_raw_packet'] is g['flags'][0] and r['need_sig_ptrs'] is g['flags'][1] for r in g['registered'])
+        return {'route_remembered_once_with_handler_validator_and_flags': len(g['routes'].items) == 1 and
+                all(x is y for x, y in zip(g['routes'].items[0], want)) and len(g['routes'].items[0]) == 5,
+                'registered_at_once_iff_connected': And(Iff(g['face'].running, len(g['registered']) == 1), len(g['registered']) <= 1, ok_reg),
+                'returns_the_function_itself': result is func}
